@@ -282,12 +282,23 @@ class ClassInfo:
                 return (inner[0], 'newid') if inner else None
             if fn in ('_KeyDict', 'Vec', 'Array', 'UVAxis', 'set', 'list', 'dict') or not v.args:
                 return None
-            raise TranslateError(f'{self.name}.__init__: unrecognised call in a field store: `{ast.unparse(v)}`')
+            return self._derived(v, params, local, spec)
         if isinstance(v, (ast.Constant, ast.ListComp, ast.Attribute, ast.Dict, ast.JoinedStr, ast.Subscript)):
             if isinstance(v, ast.Subscript) and ast.unparse(v) == "targ['targetname']":
                 return 'targ', 'direct'
+            if isinstance(v, (ast.ListComp, ast.Dict, ast.JoinedStr, ast.Subscript)) and _names_in(v, params, local):
+                return self._derived(v, params, local, spec)
             return None
-        raise TranslateError(f'{self.name}.__init__: unrecognised field store `{ast.unparse(v)}`')
+        return self._derived(v, params, local, spec)
+
+    def _derived(self, v: ast.expr, params: set[str], local: dict[str, ast.expr], spec: Optional['Spec']) -> None:
+        """A store expression of no recognised value-preserving shape (arithmetic, comparison, `a and b`, an unknown
+        call, a formatted string ...): the field is COMPUTED from the parameters it mentions — none of them reaches it
+        as a value, all of them steer it.  For a specialised call they become guards of the field (the census row is
+        then `HMissing` with lossy flows, so `copy_covers_fields` / `copy_args_lossless` name the field)."""
+        if spec is not None:
+            spec.guards |= _names_in(v, params, local)
+        return None
 
     def specialise(self, bound: dict[str, ast.expr], argann: dict[str, Optional[str]]) -> 'Specialised':
         """The constructor SPECIALISED to one call: `bound` = the argument expression of every parameter the call
@@ -816,6 +827,14 @@ def src_flows(e: ast.AST, src: str, env: dict[str, ast.expr], info: Optional['Cl
         go(e.orelse, mode)
         return out
     if isinstance(e, ast.BoolOp):
+        if isinstance(e.op, ast.Or) and len(e.values) == 2 and (isinstance(e.values[1], ast.Constant)
+                                                                 or ast.unparse(e.values[1]) in ('set()', '()', '[]', '{}')):
+            go(e.values[0], worse('ordefault'))       # `x or default`: x itself, when truthy
+            return out
+        if isinstance(e.op, ast.And):
+            for x in e.values:
+                go(x, worse('derived'))                # `a and b`: one of the two, depending on the other
+            return out
         for x in e.values:
             go(x, mode)
         return out
@@ -886,6 +905,7 @@ class Census:
         self.detail: dict[str, str] = {}
         self.srcs: dict[str, list[str]] = {}      # field -> fields of the SOURCE object the expression reads
         self.flows: dict[str, list[tuple[str, str]]] = {}   # field -> (source field, ident|presence|ordefault|guard|derived)
+        self.post_guards: dict[str, list[str]] = {}  # field -> tests (source text, over `self`) guarding its only store
         self.builder = 'ctor'                       # ctor | shallow (attrs.evolve / copy.copy: unspecified fields shared)
 
     def set(self, field: str, how: str, expr: ast.AST | str, srcs: Optional[list[str]] = None,
@@ -926,6 +946,8 @@ class CopyAnalysis:
             a, b = e.values
             if isinstance(a, ast.Name) and a.id in params and _self_attr(b, src) in ('map', 'vmf'):
                 return 'ctx'
+            if _self_attr(a, src) is not None and (isinstance(b, ast.Constant) or ast.unparse(b) in ('set()', '()', '[]', '{}')):
+                return 'share'        # `self.f or default`: the flow census records that only truthy values survive
             raise TranslateError(f'{label}: unrecognised `or` expression `{ast.unparse(e)}`')
         if isinstance(e, ast.IfExp):
             body = self.classify(e.body, src, env, params, label)
@@ -967,11 +989,11 @@ class CopyAnalysis:
                 return 'deep-ctor'
             raise TranslateError(f'{label}: unrecognised call `{ast.unparse(e)}`')
         if isinstance(e, (ast.ListComp, ast.DictComp)):
-            if len(e.generators) != 1 or e.generators[0].ifs:
+            if len(e.generators) != 1:
                 raise TranslateError(f'{label}: unrecognised comprehension `{ast.unparse(e)}`')
             g = e.generators[0]
             it = g.iter
-            partial = False
+            partial = bool(g.ifs)       # a filter: only part of the elements is carried over
             if isinstance(it, ast.Subscript) and isinstance(it.slice, ast.Slice) and _self_attr(it.value, src) is not None:
                 # a slice of the field: only part of the elements is carried over
                 it, partial = it.value, True
@@ -1171,7 +1193,9 @@ class CopyAnalysis:
                 and isinstance(e.args[0], ast.Name) and e.args[0].id == 'self'
         shallow: list[ast.Call] = []
 
-        def scan(body: list[ast.stmt], guarded: bool) -> None:
+        post_guards: dict[str, list[list]] = {}
+
+        def scan(body: list[ast.stmt], guarded: list) -> None:
             nonlocal call, newvar, raw_new
             for st in body:
                 if isinstance(st, ast.Expr) and isinstance(st.value, ast.Constant):
@@ -1209,6 +1233,7 @@ class CopyAnalysis:
                         continue
                     if newvar is not None and _self_attr(t, newvar) is not None:
                         post.append((_self_attr(t, newvar), st.value))  # type: ignore[arg-type]
+                        post_guards.setdefault(_self_attr(t, newvar), []).append(list(guarded))  # type: ignore[arg-type]
                         continue
                     if isinstance(t, ast.Subscript) and isinstance(t.value, ast.Name) and t.value.id in params:
                         continue      # side_mapping[self.id] = new.id : bookkeeping in a caller-supplied mapping
@@ -1223,7 +1248,7 @@ class CopyAnalysis:
                         # both branches must store the same fields; the isinstance(list) branch decides for containers
                         if not test.startswith('isinstance(self.'):
                             raise TranslateError(f'{label}: unrecognised if/else `{test}`')
-                        scan(st.body, True)
+                        scan(st.body, guarded)         # both branches store the field: not conditional
                         for s2 in st.orelse:
                             if isinstance(s2, ast.Return) and isinstance(s2.value, ast.Name) and s2.value.id == newvar:
                                 continue      # both branches end in `return <the copy>` (guard-clause form)
@@ -1231,18 +1256,25 @@ class CopyAnalysis:
                                     and _self_attr(s2.value, 'self') == _self_attr(s2.targets[0], newvar)):
                                 raise TranslateError(f'{label}: unrecognised else-branch `{ast.unparse(s2)}`')
                     else:
-                        scan(st.body, True)
+                        scan(st.body, guarded + [test])
                     continue
                 raise TranslateError(f'{label}: unsupported statement `{ast.unparse(st)[:60]}` (line {st.lineno})')
-        scan(fn.body, False)
+        scan(fn.body, [])
         if len(shallow) + (call is not None) + raw_new > 1:
             raise TranslateError(f'{label}: more than one way of building the copy')
+        # a field stored after construction only under `if <test on self>:` keeps the constructor's default otherwise
+        # (evidence for the run-time flow probe: which states of the original the row speaks about)
+        pg = {f: [g for g in gs[-1]] for f, gs in post_guards.items() if gs and gs[-1]}
         if shallow:
-            return self.shallow_census(label, cname, shallow[0], 'self', params, post=post, env=env)
+            cen = self.shallow_census(label, cname, shallow[0], 'self', params, post=post, env=env)
+            cen.post_guards = pg
+            return cen
         if call is None and not raw_new:
             raise TranslateError(f'{label}: no constructor call found')
         if call is not None:
-            return self.ctor_census(label, cname, call, 'self', env, params, post)
+            cen = self.ctor_census(label, cname, call, 'self', env, params, post)
+            cen.post_guards = pg
+            return cen
         info = self.classes[cname]
         cen = Census(label, info)
         saved, self.src_class = self.src_class, cname
@@ -1251,6 +1283,7 @@ class CopyAnalysis:
                     src_reads(e, 'self', {**self.rebind, **env}, info),
                     src_flows(e, 'self', {**self.rebind, **env}, info, self.classes))
         self.src_class = saved
+        cen.post_guards = pg
         self.censuses.append(cen)
         return cen
 
@@ -1432,6 +1465,7 @@ def translate() -> tuple[str, dict]:
         side['census'][c.label] = [[f, k, h, c.detail.get(f, '<not set by copy>')] for f, k, h in rows]
         side['sources'][c.label] = {f: c.srcs.get(f, []) for f, _k, _h in rows}
         side['builder'][c.label] = c.builder
+        side.setdefault('post_guards', {})[c.label] = c.post_guards
         side.setdefault('class_of', {})[c.label] = c.info.name
     lines.append('Definition all_census : list (string * census) := [')
     lines.append(';\n'.join(f'  ("{c.label}", census_{c.label})' for c in censuses))
